@@ -286,6 +286,16 @@ def parse_event(i, op, spec, dsl=None, delim="/", parser=None, spec_for_tlc=None
     e["spec"] = enc_val(spec if spec_for_tlc is None else spec_for_tlc)
     e["delim"] = ord(delim)
     _do = do_parse if parser is None else (lambda _op, _spec, _delim: parser())
+    if op == "parse_parts" and parser is None and dsl is not None:
+        import zlib
+        if zlib.crc32(repr(e["spec"]).encode()) % 4 == 0:       # (by spec, so that a replay takes the same route)
+            # a user's subclass of DataPath that adds nothing: its own from_part_specs gives a path of that class, equal
+            # to the one its constructor builds from the same parts
+            sub = type("LabelledPath", (dp.DataPath,), {})
+            _do = lambda _op, _spec, _delim: sub.from_part_specs(*_spec)      # noqa: E731
+            import copy as _copy
+            dsl = _copy.copy(dsl)
+            dsl.__class__ = sub           # the API-built path as an object of the subclass, everything else as it is
     kinds = {"parse_cond": vc.ConditionLike, "parse_part": dp.ContainerValue,
              "parse_parts": dp.DataPath, "parse_path": dp.DataPath, "from_str": dp.DataPath,
              "parse_rule": valida.Rule, "parse_schema": valida.Schema}
